@@ -369,6 +369,8 @@ def handle_set(config, error, to_set):
                     error.append(f"Boolean symbol {sym.name} only accepts true/false values")
             elif sym.type == kconfiglib.HEX:
                 try:
+                    if isinstance(val, bool):
+                        raise TypeError  # JSON true/false is an int for Python, but no number
                     if not isinstance(val, int):
                         val = int(val, 16)  # input can be a decimal JSON value or a string of hex digits
                     sym.set_value(hex(val))
